@@ -64,6 +64,13 @@ def jobs(tier):
         js.append(row_job(8, 0, 8, 11, 3000))      # 165 CPU-s: thorough tier
         js.append(row_job(8, 1, 8, 11, 3000))
         js.append(row_job(4, 0, 24, 25, 3600))
+    # (lead) the deferred long-span fill of rasterize_edges_8 across sample rows (seed C12-4)
+    for k in ((2,) if not th else (2, 3)):
+        j = row_job(8, 0, 16, 19, 2400, case=3, name="row.a8.subrows.k%d.w16" % k, extra={"VC_K": k, "VC_FIXROW": 0, "VC_GROW": 1})
+        j.bound = "image width <= 16 pixels, %d consecutive sample rows of one pixel row, edges starting within 2 pixels of the image and moving linearly by less than the image width per sample row" % k
+        j.domain = ("l->x, r->x and their per-sample-row steps symbolic; width 16; all buffer words symbolic; ghost pixel anywhere in the "
+                    "rasterised row: new == sat(old + sum over the sample rows of the sample count)")
+        js.append(j)
     js.append(row_job(1, 0, 96, 11, 300, case=1, name="finding.row.a1.far_right"))
     # ---- (4) tiling at row level
     js.append(row_job(1, 0, 96, 11, 300, case=2, name="tile.a1.w96"))
